@@ -6,6 +6,7 @@ MOVED/ASK/REDIRECT re-sends are decided under C19/C28.
 -/
 import Rv.Model.Teardown
 import Rv.Gen.PipeShape
+import Rv.Model.WriterLoop
 namespace Rv.C03
 open Rv.Teardown
 
@@ -222,7 +223,61 @@ theorem client_loop_pinned :
       ["err == errConnExpired", "c.retry && _, ok := err.(*RedisError); !ok && c.isRetryable(err, ctx) && shouldRetry"] := by
   refine ⟨rfl, rfl, rfl⟩
 
+/-! ### the writer: a batch is `written` (below `wcnt`) as soon as any of its bytes may be on the wire -/
+
+open Rv.WriterLoop in
+private abbrev WInv (pre : List Batch) (w : W) : Prop :=
+  Covered pre w ∧ w.wcnt ≤ pre.length ∧ (w.err = false → w.wcnt = pre.length)
+
+open Rv.WriterLoop in
+private theorem winv_step (pre : List Batch) (w : W) (b : Batch) (h : WInv pre w) :
+    WInv (pre ++ [b]) (writeBatch true w b) := by
+  obtain ⟨hc, hle, heq⟩ := h
+  unfold writeBatch
+  by_cases he : w.err = true
+  · simp only [he, if_true]
+    refine ⟨?_, by simp; omega, by simp [he]⟩
+    intro x hx
+    obtain ⟨i, hi, b', hb', hm⟩ := hc x hx
+    exact ⟨i, hi, b', by rw [List.getElem?_append_left (by omega)]; exact hb', hm⟩
+  · have he' : w.err = false := by cases h : w.err <;> simp_all
+    have hw : w.wcnt = pre.length := heq he'
+    simp only [he', Bool.false_eq_true, if_false, Bool.true_or, if_true]
+    refine ⟨?_, by simp; omega, by intro _; simp; omega⟩
+    intro x hx
+    rcases List.mem_append.mp hx with hx | hx
+    · obtain ⟨i, hi, b', hb', hm⟩ := hc x hx
+      exact ⟨i, by show i < w.wcnt + 1; omega, b', by rw [List.getElem?_append_left (by omega)]; exact hb', hm⟩
+    · refine ⟨pre.length, by show pre.length < w.wcnt + 1; omega, b, by simp, List.mem_of_mem_take hx⟩
+
+open Rv.WriterLoop in
+private theorem winv_fold (bs pre : List Batch) (w : W) (h : WInv pre w) :
+    WInv (pre ++ bs) (bs.foldl (writeBatch true) w) := by
+  induction bs generalizing pre w with
+  | nil => simpa using h
+  | cons b bs ih =>
+    have := ih (pre ++ [b]) (writeBatch true w b) (winv_step pre w b h)
+    simpa [List.append_assoc] using this
+
+/-- for every sequence of batches and every point at which the connection fails, whatever reached the wire belongs to a
+    batch the writer has counted: the teardown (`rcnt < wcnt ⇒ sent`, never `expired`) therefore never lets a possibly
+    executed command be re-sent transparently. Holds because the counter is incremented before the write loop. -/
+theorem written_covers_wire (bs : List Rv.WriterLoop.Batch) :
+    Rv.WriterLoop.Covered bs (Rv.WriterLoop.run true bs) := by
+  have := winv_fold bs [] Rv.WriterLoop.init ⟨by intro x hx; simp [Rv.WriterLoop.init] at hx, by simp [Rv.WriterLoop.init], by intro _; rfl⟩
+  simpa [Rv.WriterLoop.run] using this.1
+
+/-- counting only after an error-free write loses that: two commands of an uncounted batch are on the wire -/
+theorem count_after_write_uncovered :
+    (Rv.WriterLoop.run false [([1, 2, 3], 2)]).wire = [1, 2] ∧ (Rv.WriterLoop.run false [([1, 2, 3], 2)]).wcnt = 0 := by
+  decide
+
+/-- the code counts before writing (regenerated from `_backgroundWrite` on every run) -/
+theorem writer_counts_before_write_pinned : Rv.Gen.PipeShape.writerCountsBeforeWrite = true := by decide
+
 /-! non-vacuity -/
+example : (Rv.WriterLoop.run true [([1, 2], 9), ([3, 4, 5], 1), ([6], 9)]) = ⟨2, [1, 2, 3], true⟩ := by decide
+
 private def exD : Drain :=
   { why := Why.expired, rcnt := 3, wcnt := 5, closed := false, pending := [⟨1, true⟩, ⟨2, true⟩, ⟨3, false⟩], out := [] }
 example : Inv exD [⟨1, true⟩, ⟨2, true⟩] [⟨3, false⟩] := by
